@@ -598,7 +598,7 @@ func (f *flaky) Write(p []byte) (int, error) {
 // output (B-i) and vs independent encoder output (B-ii).
 
 func TestRoundTrip(t *testing.T) {
-	hx.Check(t, 10, func(t *rapid.T) {
+	hx.Check(t, 7, func(t *rapid.T) {
 		class, payload := genPayload(t, true)
 		pat := genPattern(t, payload)
 		level := genLevel(t, "level")
